@@ -15,7 +15,8 @@ from discopy.quantum.circuit import (
     Functor, Id, bit, qubit, Discard, Measure)
 from discopy.quantum.gates import (
     ClassicalGate, QuantumGate, Bits, Bra, Ket,
-    Swap, Scalar, MixedScalar, GATES, X, Rx, Rz, CRz, format_number)
+    Swap, Scalar, MixedScalar, GATES, X, Rx, Rz, CRz, Controlled,
+    format_number)
 
 
 class Circuit(tk.Circuit):
@@ -211,13 +212,18 @@ def to_tk(circuit):
         matrix = box.array.reshape(2 * (2 ** len(box.dom), ))
         return (matrix == matrix.conj().T).all()
 
+    def is_dagger(box):
+        if isinstance(box, Controlled):
+            return is_dagger(box.controlled)
+        return box.is_dagger
+
     def add_gate(qubits, box, offset):
         i_qubits = [qubits[offset + j] for j in range(len(box.dom))]
         if isinstance(box, (Rx, Rz)):
             tk_circ.__getattribute__(box.name[:2])(2 * box.phase, *i_qubits)
         elif isinstance(box, CRz):
             tk_circ.__getattribute__(box.name[:3])(2 * box.phase, *i_qubits)
-        elif box.is_dagger and not is_self_adjoint(box):
+        elif is_dagger(box) and not is_self_adjoint(box):
             if not hasattr(tk_circ, box.name + "dg"):
                 raise NotImplementedError
             tk_circ.__getattribute__(box.name + "dg")(*i_qubits)
